@@ -126,7 +126,9 @@ pub fn generate(cfg: &RunCfg, out: &mut Outcome) -> Scenario {
     let mut shared_path: Option<String> = None;
     if t::chance(1, 4) {
         let statics_only = |p: &str| !p.contains(':');
-        let mount_at = app.items.iter().position(|it| matches!(it, Item::Mount { prefix, .. } if statics_only(prefix)));
+        // (not where the enclosing application already answers at that path: one handler per route and method)
+        let parent_paths: Vec<String> = app.items.iter().filter_map(|it| if let Item::Routes { path, .. } = it { Some(path.clone()) } else { None }).collect();
+        let mount_at = app.items.iter().position(|it| matches!(it, Item::Mount { prefix, .. } if statics_only(prefix) && !parent_paths.contains(prefix)));
         if let Some(i) = mount_at {
             let mut parent_methods: Vec<&str> = vec!["GET", "PUT", "POST", "PATCH", "DELETE"];
             t::shuffle(&mut parent_methods);
